@@ -575,6 +575,9 @@ Proof.
   intros Hn. apply H. exact Hn.
 Qed.
 
+(* conversion must never try to run a search (vm_compute is not affected) *)
+Global Opaque find_below.
+
 (* ------------------------------------------------------------------ automata without Look states *)
 Definition no_look (A : nfa) : bool := forallb (fun s => negb (is_look s)) (states A).
 
@@ -822,6 +825,47 @@ Proof.
   - intros H. destruct (IH H) as [lo' [hi' [Hin Hr]]]. exists lo', hi'. split; [now right|exact Hr].
 Qed.
 
+(* visit every byte of the ranges of L once: a byte already covered by an earlier range is
+   skipped *)
+Definition in_any (seen : list (N * N)) (b : N) : bool :=
+  existsb (fun lh => in_range (fst lh) (snd lh) b) seen.
+
+Fixpoint visit_ranges {T} (seen L : list (N * N)) (G : N -> option T) : option T :=
+  match L with
+  | [] => None
+  | (lo, hi) :: t =>
+    match find_range lo hi (fun b => if in_any seen b then None else G b) with
+    | Some w => Some w
+    | None => visit_ranges ((lo, hi) :: seen) t G
+    end
+  end.
+
+Lemma visit_ranges_none {T} (G : N -> option T) : forall L seen, visit_ranges seen L G = None ->
+  forall b, in_any L b = true -> in_any seen b = false -> G b = None.
+Proof.
+  induction L as [|[lo hi] t IH]; intros seen H b Hb Hs; cbn [visit_ranges] in H.
+  - discriminate.
+  - destruct (find_range lo hi (fun b => if in_any seen b then None else G b)) eqn:E; [discriminate|].
+    cbn [in_any existsb fst snd] in Hb.
+    destruct (in_range lo hi b) eqn:Er.
+    + unfold in_range in Er. apply andb_prop in Er as [E1 E2].
+      pose proof (find_range_none _ _ _ E b ltac:(lia) ltac:(lia)) as Hn. cbv beta in Hn.
+      now rewrite Hs in Hn.
+    + cbn [orb] in Hb. apply (IH _ H b Hb). cbn [in_any existsb fst snd]. rewrite Er. exact Hs.
+Qed.
+
+Definition ranges_of (F : list fstate) : list (N * N) :=
+  flat_map (fun fs : fstate => map (fun tr : N * N * nat => fst tr) (snd fs)) F.
+
+Definition node_bad (p : list N) (F : list fstate) : bool :=
+  if facc F then (if 2 <=? length p then negb (is_enc p) else false) else false.
+
+Lemma node_bad_false p F : node_bad p F = false -> facc F = true -> 2 <= length p -> is_enc p = true.
+Proof.
+  unfold node_bad. intros H Ha Hl. rewrite Ha in H. replace (2 <=? length p) with true in H by lia.
+  now apply negb_false_iff in H.
+Qed.
+
 Section Walk.
   Variable cl : nat -> list fstate.
 
@@ -831,17 +875,15 @@ Section Walk.
      one well-formed encoding.  Out of fuel (a live prefix longer than 4 bytes) is
      reported with the prefix. *)
   Fixpoint walk (fuel : nat) (p : list N) (F : list fstate) : option (list N) :=
-    if facc F && (2 <=? length p) && negb (is_enc p) then Some p else
+    if node_bad p F then Some p else
     match fuel with
     | 0 => if fdead F then None else Some p
     | S f =>
-      find_in F (fun fs =>
-        find_in (snd fs) (fun tr =>
-          find_range (fst (fst tr)) (snd (fst tr)) (fun b =>
-            match fnext cl F b with
-            | [] => None
-            | F' => walk f (p ++ [b]) F'
-            end)))
+      visit_ranges [] (ranges_of F) (fun b =>
+        match fnext cl F b with
+        | [] => None
+        | F' => walk f (p ++ [b]) F'
+        end)
     end.
 
   Lemma walk_sound : forall f p F, walk f p F = None ->
@@ -849,15 +891,13 @@ Section Walk.
       is_enc (p ++ ext) = true.
   Proof.
     induction f as [|f IH]; intros p F H ext Ha Hl; cbn [walk] in H;
-      destruct (facc F && (2 <=? length p) && negb (is_enc p)) eqn:Ec; try discriminate.
+      destruct (node_bad p F) eqn:Ec; try discriminate.
     - destruct (fdead F) eqn:Ed; [|discriminate].
       destruct ext as [|b t].
-      + rewrite app_nil_r in *. cbn [fold_left] in Ha. rewrite Ha in Ec.
-        replace (2 <=? length p) with true in Ec by lia. cbn [andb] in Ec. now apply negb_false_iff in Ec.
+      + rewrite app_nil_r in *. cbn [fold_left] in Ha. now apply (node_bad_false p F).
       + cbn [fold_left] in Ha. rewrite (fdead_next cl F b Ed), fold_fnext_nil in Ha. discriminate.
     - destruct ext as [|b t].
-      + rewrite app_nil_r in *. cbn [fold_left] in Ha. rewrite Ha in Ec.
-        replace (2 <=? length p) with true in Ec by lia. cbn [andb] in Ec. now apply negb_false_iff in Ec.
+      + rewrite app_nil_r in *. cbn [fold_left] in Ha. now apply (node_bad_false p F).
       + cbn [fold_left] in Ha.
         destruct (fnext cl F b) as [|fs' F'] eqn:Es.
         { rewrite fold_fnext_nil in Ha. discriminate. }
@@ -866,10 +906,11 @@ Section Walk.
         unfold fnext in Hin. apply in_flat_map in Hin. destruct Hin as [fs [Hfs Hx]].
         destruct (sparse_next (snd fs) b) as [nx|] eqn:En; [|now destruct Hx].
         destruct (sparse_next_in _ _ _ En) as [lo [hi [Htr Hr]]].
-        pose proof (find_in_none _ _ H fs Hfs) as H1. cbv beta in H1.
-        pose proof (find_in_none _ _ H1 (lo, hi, nx) Htr) as H2. cbv beta in H2. cbn [fst snd] in H2.
-        unfold in_range in Hr. apply andb_prop in Hr as [Hr1 Hr2].
-        pose proof (find_range_none _ _ _ H2 b ltac:(lia) ltac:(lia)) as Hn. cbv beta in Hn.
+        assert (Hany : in_any (ranges_of F) b = true).
+        { unfold in_any. apply existsb_exists. exists (lo, hi). split; [|exact Hr].
+          unfold ranges_of. apply in_flat_map. exists fs. split; [exact Hfs|].
+          apply in_map_iff. exists (lo, hi, nx). split; [reflexivity|exact Htr]. }
+        pose proof (visit_ranges_none _ _ _ H b Hany eq_refl) as Hn. cbv beta in Hn.
         rewrite Es in Hn.
         replace (p ++ b :: t) with ((p ++ [b]) ++ t) in * by (rewrite <- app_assoc; reflexivity).
         eapply IH; [exact Hn|exact Ha|exact Hl].
@@ -966,6 +1007,8 @@ Proof.
     rewrite (scalar_page r H128 Hs) in Hb.
     apply (find_below_none _ _ Hb (r mod 64)%N). lia.
 Qed.
+
+Global Opaque find_pages.
 
 Section CpFast.
   Variable cl : nat -> list fstate.
@@ -1118,6 +1161,11 @@ Definition first_failure (A : nfa) (ranges : list (N * N)) : option (list N) :=
     | None => find_trie A
     end
   end.
+
+(* the three searches separately (single bytes; code points; everything else accepted), so
+   that a known failure of one phase does not hide a new failure of another *)
+Definition phase_failures (A : nfa) (ranges : list (N * N)) : list (option (list N)) :=
+  [find_short A ranges 1; find_cp A ranges; find_trie A].
 
 Definition class_check (A : nfa) (ranges : list (N * N)) : bool :=
   wf_nfa A && no_look A && match first_failure A ranges with None => true | Some _ => false end.
